@@ -316,4 +316,18 @@ def c09(res, tier, seed):
             "trusted": M_TRUSTED + KANI_TRUSTED}
 
 
-CHECKS = {"C03": c03, "C04": c04, "C10": c10, "C11": c11, "C12": c12, "C16": c16, "C14": c14, "C05": c05, "C06": c06, "C17": c17, "C01": c01, "C13": c13, "C15": c15, "C09": c09}
+def c20(res, tier, seed):
+    import mbin
+    mbin.run(res, nlines=2 if tier == "quick" else 3)
+    res.assumptions += ["environment stubs: stdin().lock().split(b'\\n') yields Ok(line) per line in input order (no I/O errors); map/for_each apply their closures once per "
+                        "line in order; _print/_eprint = one record each; str::from_utf8 = Ok iff the line is UTF-8 (both cases possible); "
+                        "AisParser::parse = any of Complete / Incomplete / Err (C01 covers its totality)",
+                        "%d symbolic lines per stream (the per-line closure has no state besides the parser)" % (2 if tier == "quick" else 3),
+                        "not claimed: real process exit status and EOF handling beyond the replayed streams, stdin I/O errors, the Debug text of records"]
+    return {"functions_encoded": ["main", "main::{closure#0}", "main::{closure#1}", "main::{closure#1}::{closure#0}", "parse_nmea_line (src/bin/aisparser.rs)"],
+            "bounds": {"lines": 2 if tier == "quick" else 3, "line_content": "arbitrary (UTF-8-ness and parser outcome symbolic)"},
+            "technique": "symbolic execution of the binary's MIR with nondeterministic environment stubs (z3); counter-examples replayed through a pipe into the real binary",
+            "trusted": M_TRUSTED}
+
+
+CHECKS = {"C03": c03, "C04": c04, "C10": c10, "C11": c11, "C12": c12, "C16": c16, "C14": c14, "C05": c05, "C06": c06, "C17": c17, "C01": c01, "C13": c13, "C15": c15, "C09": c09, "C20": c20}
